@@ -31,6 +31,7 @@ ASSUMPTIONS = [
 ]
 MIN_NONTRIVIAL = {'quick': 20000, 'thorough': 200000}
 REQUIRED_MONITORS = ['contract:trs_to_dict', 'construct', 'construct:ocr_scrub',
+                     'construct:placeholder',
                      'construct:upper-default', 'construct:static+setter',
                      'wrap',
                      'wrap-nonstandard', 'eq-hash', 'tract-trs',
@@ -187,6 +188,67 @@ def _check_construct(ctx, rep, pytrs, t, ns, r, ew, s, tenc, renc, senc,
             ctx.violation('equal-strings-not-equal', case,
                           f"TRS({got!r}) built twice: == {again == obj}, "
                           f"hash equal {hash(again) == hash(obj)}")
+
+
+_PH = {'twp': ('___z', 'XXXz'), 'rge': ('___z', 'XXXz'), 'sec': ('__', 'XX')}
+
+
+def _check_placeholder_construct(ctx, rep, pytrs, kinds, t, ns, r, ew, s,
+                                 ocr):
+    """Components given as the undefined / error placeholder (or as empty
+    input) are reported as such; the others are kept -- through every
+    builder, with and without ocr_scrub."""
+    case = {'op': 'construct-placeholder', 'kinds': list(kinds), 't': t,
+            'ns': ns, 'r': r, 'ew': ew, 's': s, 'ocr': ocr}
+    rep.set_case(case)
+    ctx.case(case, True, shape=f"construct-placeholder:{'/'.join(kinds)}/{ocr}",
+             sample=case)
+    ctx.hit('construct:placeholder')
+    valid = {'twp': f"{t}{ns}", 'rge': f"{r}{ew}", 'sec': f"{s:02d}"}
+    given, expected = {}, {}
+    for comp, kind in zip(('twp', 'rge', 'sec'), kinds):
+        undef, err = _PH[comp]
+        if kind == 'valid':
+            given[comp], expected[comp] = valid[comp], valid[comp]
+        elif kind == 'undef':
+            given[comp], expected[comp] = undef, undef
+        elif kind == 'error':
+            given[comp], expected[comp] = err, err
+        elif kind == 'none':
+            given[comp], expected[comp] = None, undef
+        else:
+            given[comp], expected[comp] = '', undef
+    exp = expected['twp'] + expected['rge'] + expected['sec']
+    args = (given['twp'], given['rge'], given['sec'])
+    with ctx.guard(case):
+        setter_obj = pytrs.TRS()
+        results = (
+            ('TRS.construct_trs',
+             pytrs.TRS.construct_trs(*args, ocr_scrub=ocr)),
+            ('TRS.from_twprgesec',
+             pytrs.TRS.from_twprgesec(*args, ocr_scrub=ocr).trs),
+            ('set_twprgesec (returned)',
+             setter_obj.set_twprgesec(*args, ocr_scrub=ocr)),
+            ('set_twprgesec (.trs)', setter_obj.trs),
+            ('Tract.from_twprgesec',
+             pytrs.Tract.from_twprgesec(
+                 'x', *args, config='ocr_scrub' if ocr else None).trs),
+        )
+        for label, val in results:
+            if val != exp:
+                ctx.violation(
+                    'placeholder-construct-not-kept', case,
+                    f"{label}{args!r} ocr_scrub={ocr} -> {val!r}, expected "
+                    f"{exp!r}", dedup=f"{label}|{'/'.join(kinds)}|{ocr}")
+        d = O.decompose(exp)
+        obj = pytrs.TRS.from_twprgesec(*args, ocr_scrub=ocr)
+        for comp in ('twp', 'rge', 'sec'):
+            if bool(getattr(obj, f'{comp}_undef')) != d[f'{comp}_undef']:
+                ctx.violation(
+                    'placeholder-misreported', case,
+                    f"from_twprgesec{args!r} ocr_scrub={ocr}: {comp}_undef == "
+                    f"{getattr(obj, comp + '_undef')!r}, expected "
+                    f"{d[comp + '_undef']!r}", dedup=f"{comp}|{ocr}")
 
 
 def _check_wrap(ctx, rep, pytrs, s, origin):
@@ -361,6 +423,13 @@ def run_shard(shard, ctx):
                 for sec in ('14', 'XX', '__'):
                     _check_wrap(ctx, rep, pytrs, twp + rge + sec,
                                 'placeholder')
+        kinds = ('valid', 'undef', 'error', 'none', 'empty')
+        for ks in itertools.product(kinds, repeat=3):
+            for ocr in (False, True):
+                for (t, ns, r, ew, sc) in ((154, 'n', 97, 'w', 14),
+                                           (2, 's', 0, 'e', 1)):
+                    _check_placeholder_construct(ctx, rep, pytrs, ks, t, ns,
+                                                 r, ew, sc, ocr)
         return
     rng = ctx.rng(fam, shard['i'])
     if fam == 'cross':
@@ -422,7 +491,11 @@ def replay(case, ctx):
     from ..monitors import trs_contract
     rep = Reporter(ctx)
     trs_contract.install(ctx, rep, prop='C12')
-    if case['op'] == 'construct':
+    if case['op'] == 'construct-placeholder':
+        _check_placeholder_construct(ctx, rep, pytrs, tuple(case['kinds']),
+                                     case['t'], case['ns'], case['r'],
+                                     case['ew'], case['s'], case['ocr'])
+    elif case['op'] == 'construct':
         _check_construct(ctx, rep, pytrs, case['t'], case['ns'], case['r'],
                          case['ew'], case['s'], case['tenc'], case['renc'],
                          case['senc'], case['channel'])
